@@ -34,14 +34,15 @@ def main():
             out = mod.replay_extra(rec)
         else:
             unit = None
-            for u in mod.UNITS:
-                if u.qualname == rec.get("qualname") and u.module == rec.get("module") and rec.get("case") in u.cases():
-                    unit = u
-                    break
+            label = rec.get("unit") or ""
+            cands = [u for u in mod.UNITS if u.qualname == rec.get("qualname") and u.module == rec.get("module") and rec.get("case") in u.cases()]
+            named = [u for u in cands if label == (f"{u.name}[{rec.get('case')}]" if rec.get("case") else u.name)]
+            unit = (named or cands or [None])[0]
             if unit is None:
                 out = {"ran": False, "error": "unit not found"}
             else:
-                clause = rec["obligation"].split(":", 1)[1] if ":" in rec["obligation"] else ""
+                ob = rec["obligation"]
+                clause = ob[len(label) + 1:] if label and ob.startswith(label + ":") else (ob.split(":", 1)[1] if ":" in ob else "")
                 out = unit.replay(rec.get("case"), clause, rec.get("model") or {}, int(rec.get("seed") or 0))
     except Exception as e:
         out = {"ran": False, "error": f"{type(e).__name__}: {e}", "trace": traceback.format_exc()[-1500:]}
